@@ -28,6 +28,13 @@ def gen_purefns(items):
     items.append(_fn(s, 'decode_bitwidth'))
     items.append(_fn(s, 'encode_block_wand_max_tf'))
     items.append(_fn(s, 'decode_block_wand_max_tf'))
+    w = 'columnar/src/columnar/writer/column_operation.rs'
+    items.append(_fn(w, 'encode_zig_zag'))
+    items.append(_fn(w, 'decode_zig_zag'))
+    items.append(_fn('columnar/src/utils.rs', 'compute_mask'))
+    items.append(_fn('columnar/src/column_index/optional_index/set_block/dense.rs', 'get_bit_at'))
+    items.append(_fn('stacker/src/expull.rs', 'get_block_size'))
+    items.append(_fn('stacker/src/shared_arena_hashmap.rs', 'compute_previous_power_of_two'))
     # TinySet (common/src/bitset.rs): a one-field tuple struct over u64; methods taking `self` by
     # value are translated as functions of the inner word. `pop_lowest` (&mut self, Option) is
     # translated from its two expressions.
